@@ -143,13 +143,14 @@ PROPS = {
                       "the stated sub-range and `None` exactly on a wrong tag/shape; Value::{unit, left, right, product, zero, from_padded_bits}; "
                       "constructor/accessor inverse theorems; RawByteIter::next; CompactBitsIter (worklist invariant: yields exactly "
                       "`compact(padded bits, type)` = the padded encoding minus padding). PARTIAL: see level_note.",
-        "level_note": "Not (yet) under contract: Value::from_compact_bits and Value::prune (explicit two-stack codecs), iter_padded's Take<BitIter<..>> adaptor, "
-                      "the Word/uN constructors. Assumed: Arc<[u8]>/Box/Vec conversions (R8 helpers), TMR injectivity, BitIter contracts imported from unit bitstream.",
+        "level_note": "Value::from_compact_bits and Value::prune are under a TYPING + TOTALITY contract only (task-machine worklist invariant: no panic, terminates, "
+                      "result well-formed and of exactly the requested type); their bit-level functional clauses (decode inverts encode, prune keeps tags/leaves, two-step = one-step) "
+                      "are not decided. Not under contract: iter_padded's Take<BitIter<..>> adaptor, the Word/uN constructors. Assumed: Arc<[u8]>/Box/Vec conversions (R8 helpers), TMR injectivity, BitIter contracts imported from unit bitstream.",
         "assumptions": [
             "Arc<[u8]> / Box<[u8]> / Vec<u8> conversions preserve the byte sequence (R8 helpers)",
             "type widths below 2^60 bits (no saturation)",
         ],
-        "not_decided": ["from_compact_bits (decode of the compact encoding)", "prune", "iter_padded adaptor"],
+        "not_decided": ["from_compact_bits: consumed bits = compact encoding of the result (only typing/totality proved)", "prune: tags/leaf data preserved, two-step = one-step (only typing/totality proved)", "iter_padded adaptor"],
         "explanation": "",
     },
 }
